@@ -7,6 +7,7 @@ package main
 import (
 	"fmt"
 	"os"
+	"path/filepath"
 	"regexp"
 	"strconv"
 	"time"
@@ -42,6 +43,7 @@ type op struct {
 	Ext  bool    `json:"ext,omitempty"`
 	Bh   int     `json:"bh,omitempty"` // block hook: 0 none 1 pause 2 error
 	OK   bool    `json:"ok,omitempty"`
+	Hold bool    `json:"hold,omitempty"` // step: hold the executor's FinishTask (released by a "finish" op)
 }
 
 type rcase struct {
@@ -120,6 +122,12 @@ func joinNL(xs []string) string {
 }
 
 // ---- generator ----
+// lateFinish enables the family "a foreign peer's FinishTask arrives after its entry was retired and
+// the id reused" (and corpus/resppeer-pending): on once the witness has been moved into
+// corpus/resppeer (i.e. once /repo carries the owner check in startTask / finishTask), or by
+// VERIF_C10_LATEFINISH=1.
+var lateFinish = os.Getenv("VERIF_C10_LATEFINISH") != ""
+
 func genCase(r *rng.R) rcase {
 	var c rcase
 	n := r.Range(6, 26)
@@ -170,7 +178,24 @@ func genCase(r *rng.R) rcase {
 	// request whose entry was replaced and cancelled): its report arrives during the monitored life
 	first := uint64(r.Range(1, 3))
 	var leftovers []op // pops of whatever the foreign peer may have left queued / parked under the id
-	switch x := r.Intn(10); {
+	x0 := r.Intn(10)
+	if lateFinish && r.P(1, 6) {
+		// the foreign peer's response runs to its end, its FinishTask is held, the sent reports retire
+		// the entry, the monitored peer takes the id, then the FinishTask arrives
+		x0 = 99
+		fp := uint64(r.Range(2, 3))
+		q := newReq(first)
+		q.Hr = 0
+		c.Ops = append(c.Ops, op{K: "msg", P: fp, Reqs: []opReq{q}}, op{K: "run", P: fp, ID: first})
+		for j := 0; j < chainN; j++ {
+			c.Ops = append(c.Ops, op{K: "step", P: fp, ID: first, Hold: true, Bh: []int{0, 0, 0, 1, 2}[r.Intn(5)]})
+		}
+		for j := 0; j <= chainN; j++ {
+			c.Ops = append(c.Ops, op{K: "notify", P: fp, ID: first, OK: true})
+		}
+		leftovers = []op{{K: "finish", P: fp, ID: first}}
+	}
+	switch x := x0; {
 	case x < 2:
 		// the foreign peer's request was queued (task pushed), perhaps started, then cancelled
 		fp := uint64(r.Range(2, 3))
@@ -337,7 +362,16 @@ func run(c *drv.Ctx) error {
 		}
 		return w.Flush()
 	}
-	for _, f := range c.CorpusFiles("resppeer") {
+	corpusFiles := c.CorpusFiles("resppeer")
+	for _, f := range corpusFiles {
+		if filepath.Base(f) == "w7_late_finish.json" {
+			lateFinish = true
+		}
+	}
+	if lateFinish {
+		corpusFiles = append(corpusFiles, c.CorpusFiles("resppeer-pending")...)
+	}
+	for _, f := range corpusFiles {
 		var rc rcase
 		if err := drv.ReplayCase(f, &rc); err != nil {
 			return fmt.Errorf("%s: %w", f, err)
